@@ -26,14 +26,21 @@ REG.add(Contract(FILE, 'PairTabulationFactory.extract_cutoffs',
     params=[('self', T.Obj('PairTabulationFactory')), ('cp', T.Obj('ConfigParser'))], result=T.NamedTuple('RCutoffTuple', [('cutoff', T.Real), ('nr', T.Int)]),
     ensures=_pair_post, post_names=['cutoff-default-10.0', 'nr-default-1001'], carries=['post'], props=['C11', 'C01']))
 
+def _nr_eff(v): return z3.If(nr_none(tab(v.cp)), z3.IntVal(1001), nr_val(tab(v.cp)))
 def _dl_post(v, old, res):
-    return _pair_post(v, old, res) + [res[1] % 4 == 0]
+    return _pair_post(v, old, res) + [res[1] % 4 == 0, res[1] >= 8]
 REG.add(Contract(FILE, 'DLPOLY_PairTabulationFactory.extract_cutoffs',
     params=[('self', T.Obj('DLPOLY_PairTabulationFactory')), ('cp', T.Obj('ConfigParser'))], result=T.NamedTuple('RCutoffTuple', [('cutoff', T.Real), ('nr', T.Int)]),
-    ensures=_dl_post, post_names=['cutoff-default-10.0', 'nr-default-1001', 'only-multiples-of-4-return'],
-    raises_when=lambda v, old, exc: [z3.BoolVal(exc.cls == 'ConfigurationException'),
-                                     z3.If(nr_none(tab(v.cp)), z3.IntVal(1001), nr_val(tab(v.cp))) % 4 != 0],
+    ensures=_dl_post, post_names=['cutoff-default-10.0', 'nr-default-1001', 'only-multiples-of-4-return', 'at-least-8-rows (the step is cutoff/(nr-4))'],
+    raises_when=lambda v, old, exc: [z3.BoolVal(exc.cls == 'ConfigurationException'), z3.Or(_nr_eff(v) % 4 != 0, _nr_eff(v) < 8)],
     carries=['post', 'raises'], props=['C02', 'C11', 'C16']))
+
+REG.add_class(ClassDecl(FILE, 'LAMMPS_PairTabulationFactory', {}, bases=('PairTabulationFactory',)))
+REG.add(Contract(FILE, 'LAMMPS_PairTabulationFactory.extract_cutoffs',
+    params=[('self', T.Obj('LAMMPS_PairTabulationFactory')), ('cp', T.Obj('ConfigParser'))], result=T.NamedTuple('RCutoffTuple', [('cutoff', T.Real), ('nr', T.Int)]),
+    ensures=lambda v, old, res: _pair_post(v, old, res) + [res[1] >= 3], post_names=['cutoff-default-10.0', 'nr-default-1001', 'at-least-3-rows (r = 0 is not written, the step is cutoff/(nr-1))'],
+    raises_when=lambda v, old, exc: [z3.BoolVal(exc.cls == 'ConfigurationException'), _nr_eff(v) < 3],
+    carries=['post', 'raises'], props=['C01', 'C11', 'C16']))
 
 def _eam_post(v, old, res):
     t = tab(v.cp)
